@@ -32,6 +32,19 @@ def make_scenarios(ctx, n):
             prior = "one"
             o = [dict(x, meph=1) for x in o]
             subtree = "/sub"
+        if i == 3:
+            # a directory with a nested directory is replaced by a symlink to ANOTHER directory of the tree: restoring the
+            # interrupted version must not put the old contents anywhere
+            def f3(d, m):
+                return {"k": "f", "data": d.hex(), "mode": 0o644, "mtime": 10**18 + m}
+
+            def d3(c):
+                return {"k": "d", "mode": 0o755, "mtime": 10**18, "c": c}
+            t0 = d3({"d": d3({"g": f3(b"g0", 1), "sub": d3({"f": f3(b"f0", 2)})}), "e": d3({}), "z": f3(b"z0", 3)})
+            t1 = t2 = d3({"d": {"k": "l", "target": "e", "mtime": 10**18 + 9}, "e": d3({}), "z": f3(b"z1!", 13)})
+            prior = "one"
+            o = [dict(x, meph=1) for x in o]
+            subtree = "/e"
         if subtree is None:
             dirs = sorted({p for t in (t0, t2) for p, n in gen.tree_paths(t) if n["k"] == "d" and p != "/"})
             subtree = ctx.rng.choice(dirs) if dirs else "/"
@@ -201,6 +214,15 @@ def run(ctx):
                             break
                 if bad:
                     continue
+                # ... and nothing is created that the listing does not name (directories on the way to a listed path aside)
+                if partial.get("tree"):
+                    listed = {e["apath"] for e, _ in exp}
+                    extra = [pth for pth, _n in gen.tree_paths(partial["tree"])
+                             if pth != "/" and pth not in listed and not any(gen.comp_prefix(pth, q) for q in listed)]
+                    if extra:
+                        ctx.oracle_fail("crash/stitched-restore-extra", f"after {kind} at op {k}, restoring the interrupted version created {extra[:4]}, "
+                                                                        f"which its listing does not contain", small)
+                        continue
         # (the monitor may mention the unopenable leftover band while stitching the basis; that is not a failure)
         if bk2.get("result") != "ok" or bk2["value"]["errors"]:
             ctx.oracle_fail("crash/later-backup-fails", f"after {kind} at op {k} a later backup of the same source does not complete cleanly: "
